@@ -864,7 +864,13 @@ func (tr tableReader) iterateAllChunks(ctx context.Context, cb func(chunk chunks
 		}
 
 		chunk := chunkRecs[chunkIndex]
+		if uint64(chunk.length) > uint64(len(buf)) {
+			buf = make([]byte, chunk.length)
+		}
 		_, err := io.ReadFull(bufReader, buf[:chunk.length])
+		if err != nil {
+			return err
+		}
 		chunkData := buf[:chunk.length]
 
 		cchk, err := NewCompressedChunk(chunk.hash, chunkData)
@@ -928,6 +934,9 @@ func (tr tableReader) tolerantIterateAllChunks(ctx context.Context, cb func(chun
 			return
 		}
 
+		if uint64(chunk.length) > uint64(len(buf)) {
+			buf = make([]byte, chunk.length)
+		}
 		_, readErr := io.ReadFull(bufReader, buf[:chunk.length])
 		chunkData := buf[:chunk.length]
 
